@@ -10,46 +10,41 @@ import Rbgp.Rpki.Proofs
 namespace Rbgp.Rpki.Props
 open Rbgp.Rpki Rbgp.Rpki.Spec
 
-/-! ## 0. The reference checker accepts every run (outside the recorded open finding) -/
+/-! ## 0. The reference checker accepts every run -/
 
-/-- Full-strength statement: the C12 reference checker accepts every run of the model. -/
-def check_run_ok_full : Prop := ∀ c : Case, CaseWF c → Spec.check c (run c) = .ok
+/-- **For every case (any history of insert / remove / drop-source / reset with validations,
+    listings and `show`s of peer-learned and locally originated routes interleaved, over both
+    families, also while no VRP is installed), the C12 reference checker accepts the run of the
+    model.**  (Until the repair of F12 this held only for runs that never validated against an
+    empty family table.) -/
+theorem check_run_ok (c : Case) (hwf : CaseWF c) : Spec.check c (run c) = .ok :=
+  Rbgp.Rpki.check_run_ok c hwf
 
-/-- Proved part: every run in which no route is validated while the VRP set of its family is
-    empty (`nonEmptyVals`, the excluded hypothesis = open finding `empty-table-unvalidated`). -/
-theorem check_run_ok_partial (c : Case) (hwf : CaseWF c) (hne : nonEmptyVals [] c.ops = true) :
-    Spec.check c (run c) = .ok :=
-  Rbgp.Rpki.check_run_ok_partial c hwf hne
+/-- the former counter-example (no VRP installed at all): the state is NotFound, and a policy
+    `rpki not-found` matches -/
+def witnessEmpty : Case :=
+  ⟨65000, 65000, [.val ⟨.v4, [10, 1, 1, 0], 24⟩ none, .display true .notFound ⟨.v4, [10, 1, 1, 0], 24⟩ none]⟩
 
-def witnessEmpty : Case := ⟨65000, [.val ⟨.v4, [10, 1, 1, 0], 24⟩ none]⟩
+example : run witnessEmpty =
+    .ok [.v ⟨.notFound, .none, [], [], []⟩, .api (some (.notFound, .none)) true] := by decide
 
-theorem witnessEmpty_wf : CaseWF witnessEmpty := by
-  intro op hop
-  simp only [witnessEmpty, List.mem_singleton] at hop
-  subst hop
-  exact ⟨rfl, fun x hx => by simp at hx; omega⟩
-
-/-- The full-strength statement is false: with no VRP installed `validate` returns no state at
-    all (the replay `corpus/C12/open-empty-table.case`). -/
-theorem not_check_run_ok_full : ¬ check_run_ok_full := by
-  intro h
-  have := h witnessEmpty witnessEmpty_wf
-  revert this
-  decide
-
-/-- non-vacuity of `check_run_ok_partial`: a covering /8 VRP, then the /24 is validated -/
+/-- a covering /8 VRP, then the /24 is validated; a locally originated route with an empty
+    AS_PATH has the speaker's own AS (64999), not the peer session's local AS (65000), as origin -/
 def exampleCase : Case :=
-  ⟨65000, [.ins ⟨1, 0⟩ ⟨.v4, [10, 0, 0, 0], 8⟩ 24 65001,
-           .val ⟨.v4, [10, 1, 1, 0], 24⟩ (some [(2, [65001])]), .iter .v4]⟩
+  ⟨65000, 64999, [.ins ⟨1, 0⟩ ⟨.v4, [10, 0, 0, 0], 8⟩ 24 65001,
+           .val ⟨.v4, [10, 1, 1, 0], 24⟩ (some [(2, [65001])]), .iter .v4,
+           .ins ⟨1, 0⟩ ⟨.v4, [10, 2, 0, 0], 16⟩ 24 64999,
+           .display true .valid ⟨.v4, [10, 2, 1, 0], 24⟩ none,
+           .display false .valid ⟨.v4, [10, 2, 1, 0], 24⟩ none]⟩
 
-example : nonEmptyVals [] exampleCase.ops = true := by decide
 example : run exampleCase = .ok
     [.v ⟨.valid, .none, [(⟨.v4, [10, 0, 0, 0], 8⟩, ⟨24, 65001, ⟨1, 0⟩⟩)], [], []⟩,
-     .it [(⟨.v4, [10, 0, 0, 0], 8⟩, ⟨24, 65001, ⟨1, 0⟩⟩)]] := by decide
+     .it [(⟨.v4, [10, 0, 0, 0], 8⟩, ⟨24, 65001, ⟨1, 0⟩⟩)],
+     .api (some (.valid, .none)) true, .api (some (.invalid, .asn)) false] := by decide
 
 /-- the model never panics (`key_to_addr` always sees a well-formed key) -/
 theorem run_never_panics (c : Case) (hwf : CaseWF c) : ∃ obs, run c = .ok obs := by
-  obtain ⟨t', obs, hrun, _, _⟩ := run_ok c.localAsn c.ops {} [] TableInv.empty R.empty hwf
+  obtain ⟨t', obs, hrun, _, _⟩ := run_ok c.localAsn c.globalAsn c.ops {} [] TableInv.empty R.empty hwf
   exact ⟨obs, by simp [run, hrun]⟩
 
 /-! ## 1. validate = RFC 6811 -/
@@ -62,35 +57,51 @@ theorem covers_iff_bits (c : Src) (n : Net) (ml a : Nat) (hn : NetWF n) (r : Net
       (bitsOf n.addr).take n.len = (bitsOf r.addr).take n.len :=
   covers_vrpOf_iff c n ml a hn r
 
-/-- **For every VRP list, every IPv4/IPv6 route (any address content, any mask) and every
-    AS_PATH, the state returned by `validate` is the RFC 6811 state** of the VRP set for the
-    origin AS computed by `routeOrigin` — Valid iff some covering VRP has that origin (≠ 0) and
-    max-length ≥ the route length, Invalid iff some VRP covers and none matches, NotFound iff
-    none covers.  (Hypothesis: the family holds at least one VRP; see `not_check_run_ok_full`.) -/
+/-- **For every VRP list (also the empty one), every IPv4/IPv6 route (any address content, any
+    mask) and every AS_PATH, the state returned by `validate` is the RFC 6811 state** of the VRP
+    set for the origin AS computed by `routeOrigin` — Valid iff some covering VRP has that origin
+    (≠ 0) and max-length ≥ the route length, Invalid iff some VRP covers and none matches,
+    NotFound iff none covers. -/
 theorem validate_eq_rfc6811 (vrps : List (Src × Net × Nat × Nat)) (hwf : ∀ v ∈ vrps, NetWF v.2.1)
-    (r : Net) (hr : NetWF r) (localAsn : Nat) (path : Option (List Seg))
-    (hne : ∃ v ∈ vrps, v.2.1.fam = r.fam) :
+    (r : Net) (hr : NetWF r) (localAsn : Nat) (path : Option (List Seg)) :
     ((tableOf vrps).validate localAsn r path).map (·.state)
       = some (rfc6811 (vrpSet vrps) (routeOrigin localAsn path) r) := by
   obtain ⟨hi, hmem⟩ := tableOf_spec vrps hwf
-  have hnil : (tableOf vrps).trie r.fam ≠ [] := by
-    obtain ⟨v, hv, hf⟩ := hne
-    have hx : vrpOf v.1 v.2.1 v.2.2.1 v.2.2.2 ∈ abs (tableOf vrps) :=
-      (hmem _).2 (List.mem_map_of_mem (f := fun v => vrpOf v.1 v.2.1 v.2.2.1 v.2.2.2) hv)
-    intro hnil
-    have : vrpOf v.1 v.2.1 v.2.2.1 v.2.2.2 ∈ (abs (tableOf vrps)).filter (fun x => x.fam = r.fam) :=
-      List.mem_filter.2 ⟨hx, by simp [vrpOf, hf]⟩
-    rw [abs_fam_filter, hnil] at this
-    simp [absTrie] at this
-  rw [validate_state hi hr localAsn path hnil, rfc6811_congr hmem]
+  rw [validate_state hi hr localAsn path, rfc6811_congr hmem]
+
+/-- no VRP at all: every route is NotFound -/
+example (r : Net) (hr : NetWF r) (la : Nat) (path : Option (List Seg)) :
+    ((tableOf []).validate la r path).map (·.state) = some .notFound := by
+  rw [validate_eq_rfc6811 [] (by intro v hv; cases hv) r hr la path]; rfl
 
 /-- The origin AS handed to the classification is RFC 6811's Route Origin ASN: rightmost AS of
-    a final AS_SEQUENCE; the local AS for an empty/absent path or a confederation tail; NONE for
-    an AS_SET tail (paths as `Attribute::decode` yields them). -/
+    a final AS_SEQUENCE; the speaker's own AS for an empty/absent path or a confederation tail;
+    NONE for an AS_SET tail (paths as `Attribute::decode` yields them).  `localAsn` is whatever
+    `validate` is handed as the speaker's AS: `step` hands it the peer session's local AS for a
+    peer-learned route and the global AS (`RpkiTable.local_asn`) for a locally originated one
+    (`origin_of_local_route`). -/
 theorem origin_is_rfc6811 (localAsn : Nat) (path : Option (List Seg))
     (hwf : ∀ segs, path = some segs → pathWF segs = true) :
     routeOrigin localAsn path = originRfc localAsn path :=
   Rbgp.Rpki.origin_is_rfc6811 localAsn path hwf
+
+/-- A locally originated route (`Source::local()`) is validated with the speaker's global AS, a
+    peer-learned one with the session's local AS: what `show` reports is the RFC 6811 state for
+    `originRfc` of that AS. -/
+theorem origin_of_local_route (la ga : Nat) (t : Table) (hi : TableInv t) (loc : Bool) (st : VState)
+    (r : Net) (hr : NetWF r) (path : Option (List Seg))
+    (hwf : ∀ segs, path = some segs → pathWF segs = true) :
+    ∃ res : Validation, step la ga t (.display loc st r path)
+        = .ok (t, some (.api (some (res.state, res.reason)) (decide (res.state = st)))) ∧
+      res.state = rfc6811 (abs t) (originRfc (if loc then ga else la) path) r := by
+  have h := validate_state hi hr (if loc then ga else la) path
+  cases hv : t.validate (if loc then ga else la) r path with
+  | none => simp [hv] at h
+  | some res =>
+    refine ⟨res, by simp [step, hv], ?_⟩
+    rw [hv] at h
+    simp only [Option.map_some, Option.some.injEq] at h
+    rw [h, Rbgp.Rpki.origin_is_rfc6811 _ path hwf]
 
 example : routeOrigin 65000 (some [(2, [7, 8]), (1, [9, 10])]) = none := by decide
 example : routeOrigin 65000 (some [(2, [7, 8]), (3, [9])]) = some 65000 := by decide
@@ -98,33 +109,29 @@ example : routeOrigin 65000 (some [(1, [9]), (2, [7, 8])]) = some 8 := by decide
 
 /-- Same statement for the table reached by ANY history of insert / remove / drop-source /
     reset (and interleaved queries): the state is the RFC 6811 state of the set fold. -/
-theorem validate_eq_rfc6811_reachable (la : Nat) (ops : List Op) (hwf : ∀ op ∈ ops, OpWF op)
+theorem validate_eq_rfc6811_reachable (la ga : Nat) (ops : List Op) (hwf : ∀ op ∈ ops, OpWF op)
     (r : Net) (hr : NetWF r) (localAsn : Nat) (path : Option (List Seg)) :
-    ∃ t obs, runFrom la {} ops = .ok (t, obs) ∧
-      (t.trie r.fam ≠ [] →
-        (t.validate localAsn r path).map (·.state)
-          = some (rfc6811 (ops.foldl sStep []) (routeOrigin localAsn path) r)) := by
-  obtain ⟨t, obs, hrun, hi, hrel⟩ := run_ok la ops {} [] TableInv.empty R.empty hwf
-  refine ⟨t, obs, hrun, fun hne => ?_⟩
-  rw [validate_state hi hr localAsn path hne, rfc6811_congr hrel.mem]
+    ∃ t obs, runFrom la ga {} ops = .ok (t, obs) ∧
+      (t.validate localAsn r path).map (·.state)
+        = some (rfc6811 (ops.foldl sStep []) (routeOrigin localAsn path) r) := by
+  obtain ⟨t, obs, hrun, hi, hrel⟩ := run_ok la ga ops {} [] TableInv.empty R.empty hwf
+  refine ⟨t, obs, hrun, ?_⟩
+  rw [validate_state hi hr localAsn path, rfc6811_congr hrel.mem]
 
 /-- **VRPs that do not cover the route never influence the result** (more-specific, sibling,
     other family, …): adding one to any VRP list leaves the state unchanged. -/
 theorem unrelated_vrps_irrelevant (vrps : List (Src × Net × Nat × Nat))
     (hwf : ∀ v ∈ vrps, NetWF v.2.1) (v : Src × Net × Nat × Nat) (hv : NetWF v.2.1)
     (r : Net) (hr : NetWF r) (localAsn : Nat) (path : Option (List Seg))
-    (hne : ∃ w ∈ vrps, w.2.1.fam = r.fam)
     (hnc : covers (vrpOf v.1 v.2.1 v.2.2.1 v.2.2.2) r = false) :
     ((tableOf (vrps ++ [v])).validate localAsn r path).map (·.state)
       = ((tableOf vrps).validate localAsn r path).map (·.state) := by
-  rw [validate_eq_rfc6811 vrps hwf r hr localAsn path hne]
+  rw [validate_eq_rfc6811 vrps hwf r hr localAsn path]
   rw [validate_eq_rfc6811 (vrps ++ [v]) (by
         intro w hw
         rcases List.mem_append.1 hw with hw | hw
         · exact hwf w hw
-        · simp only [List.mem_singleton] at hw; subst hw; exact hv) r hr localAsn path (by
-        obtain ⟨w, hw, hf⟩ := hne
-        exact ⟨w, List.mem_append.2 (Or.inl hw), hf⟩)]
+        · simp only [List.mem_singleton] at hw; subst hw; exact hv) r hr localAsn path]
   simp only [vrpSet, List.map_append, List.map_cons, List.map_nil]
   rw [rfc6811_append_not_covering _ _ _ _ hnc]
 
@@ -137,10 +144,10 @@ example : covers (vrpOf ⟨1, 0⟩ ⟨.v4, [10, 0, 0, 0], 8⟩ 24 1) ⟨.v4, [10
 /-- **After every history of insert / remove / drop-source / reset the table lists exactly the
     set obtained by folding the set operations, each VRP once.**  (`abs t` is what `iter`
     returns for both families, read as VRPs; two spellings of one prefix are one key.) -/
-theorem table_is_set (la : Nat) (ops : List Op) (hwf : ∀ op ∈ ops, OpWF op) :
-    ∃ t obs, runFrom la {} ops = .ok (t, obs) ∧ (abs t).Nodup ∧
+theorem table_is_set (la ga : Nat) (ops : List Op) (hwf : ∀ op ∈ ops, OpWF op) :
+    ∃ t obs, runFrom la ga {} ops = .ok (t, obs) ∧ (abs t).Nodup ∧
       ∀ v, v ∈ abs t ↔ v ∈ ops.foldl sStep [] := by
-  obtain ⟨t, obs, hrun, _, hrel⟩ := run_ok la ops {} [] TableInv.empty R.empty hwf
+  obtain ⟨t, obs, hrun, _, hrel⟩ := run_ok la ga ops {} [] TableInv.empty R.empty hwf
   exact ⟨t, obs, hrun, hrel.nodup, hrel.mem⟩
 
 /-- the set operations really are set operations -/
